@@ -48,6 +48,15 @@ CLAIMS = {
 }
 
 
+# further claims: one JSON file per property under lib/claims (keys: text, note, technique, ref)
+import glob
+for _f in sorted(glob.glob(os.path.join(VERIF, "lib", "claims", "*.json"))):
+    _c = json.load(open(_f))
+    if _c.get("note", "").startswith("POOLNOTE"):
+        _c["note"] = POOLNOTE + _c["note"][len("POOLNOTE"):]
+    CLAIMS[os.path.basename(_f)[:-5]] = _c
+
+
 def main():
     props = [json.loads(l) for l in open(os.path.join(VERIF, "properties.jsonl"))]
     na_reasons = {}
